@@ -50,6 +50,14 @@ pub fn run(ctx: &Ctx) -> Outcome {
         let t = if rng.chance(0.05) { singular_transform(&mut rng) } else { any_transform(&mut rng, w as f64, h as f64) };
         let curves = rng.chance(0.6);
         let path = if rng.chance(0.2) { small_shape(&mut rng, w, h) } else { random_path(&mut rng, w, h, curves) };
+        // a family of its own: tiny and huge (power-of-two) scale factors with the geometry scaled the other
+        // way, so that the picture stays on the surface
+        let (t, path) = if rng.chance(0.1) {
+            let k = *rng.pick(&[1.0f32 / 4096., 1.0 / 1024., 1.0 / 64., 64., 1024.]);
+            (Transform::scale(k, k), path.transform(&Transform::scale(1. / k, 1. / k)))
+        } else {
+            (t, path)
+        };
         let color = premul_pixel(&mut rng);
         let o = DrawOptions { blend_mode: random_mode(&mut rng), alpha: random_alpha(&mut rng), antialias: if rng.chance(0.7) { AntialiasMode::Gray } else { AntialiasMode::None } };
         // device-space context shared by both renders
@@ -118,6 +126,76 @@ pub fn run(ctx: &Ctx) -> Outcome {
         co
     });
 
+    // sources are fixed in user space: the image and gradient oracles (C13, C12) at T^-1 of the pixel centre,
+    // with every case under a current transform, and translations chosen per axis (integer x with a fractional
+    // y of the same integer part, halves, negative values, ...)
+    run_cases(ctx, &mut out, SubSpec { name: "sources_under_transform", cases: ctx.n(40_000, 800_000), exhaustive: false, max_secs: secs }, |i, want, st| {
+        let mut rng = ctx.rng("sources_under_transform", i);
+        if i % 3 == 2 {
+            let c = super::c12::gen_case(&mut rng);
+            let mut co = super::c12::run_case(ctx, &c, st, want);
+            for v in co.violations.iter_mut() {
+                if v.tag == "C12" {
+                    v.tag = "C11".to_string();
+                }
+            }
+            return co;
+        }
+        let mut c = super::c13::gen_case(&mut rng);
+        if c.ctm == Transform::identity() || rng.chance(0.3) {
+            let n = rng.int(-6, 6) as f32;
+            let frac = *rng.pick(&[0.5f32, 0.25, 0.75, 0.125, 0.9375]);
+            c.ctm = match rng.below(6) {
+                0 => Transform::translation(n, n + if n < 0. { -frac } else { frac }),
+                1 => Transform::translation(n + if n < 0. { -frac } else { frac }, n),
+                2 => Transform::translation(n, rng.int(-6, 6) as f32 + frac),
+                3 => Transform::translation(rng.int(-6, 6) as f32 + frac, n),
+                4 => Transform::translation(n + frac, n + frac),
+                _ => any_transform(&mut rng, c.w as f64, c.h as f64),
+            };
+            if rng.chance(0.7) {
+                c.src_t = if rng.chance(0.6) { Transform::identity() } else { Transform::translation(rng.int(-3, 3) as f32, rng.int(-3, 3) as f32) };
+            }
+        }
+        let mut co = CaseOut::default();
+        co.hash = crate::prng::hash_str(&format!("{:?}{}{}{:?}{:?}{}{:?}", (c.w, c.h, c.iw, c.ih), c.repeat, c.bilinear, c.src_t, c.ctm, c.alpha, c.data));
+        if c.ctm.inverse().is_none() {
+            return co;
+        }
+        // image-space positions have to stay inside the sampler's 16.16 fixed-point range (a nearly singular
+        // transform sends pixel centres tens of thousands of texels away)
+        {
+            let m = T64::from(&c.ctm).inverse().expect("invertible").then(&T64::from(&c.src_t));
+            let far = [(0., 0.), (c.w as f64, 0.), (0., c.h as f64), (c.w as f64, c.h as f64)].iter().any(|(x, y)| {
+                let (u, v) = m.apply(*x, *y);
+                !(u.abs() < 2000. && v.abs() < 2000.)
+            });
+            // ... and a nearly singular transform has an inverse whose f32 rounding error alone moves samples by
+            // whole texels: the reference sampler's error band is made for well-conditioned matrices
+            let inv = T64::from(&c.ctm).inverse().expect("invertible");
+            let ill = [inv.a, inv.b, inv.c, inv.d].iter().any(|v| v.abs() > 8.);
+            if far || ill {
+                st.add("image_cases_outside_the_fixed_point_range_or_ill_conditioned_skipped", 1);
+                return co;
+            }
+        }
+        let spec = SrcSpec::Image { w: c.iw, h: c.ih, data: c.data.clone(), repeat: c.repeat, bilinear: c.bilinear, transform: c.src_t };
+        let pixels = match crate::scene::probe_source(c.w, c.h, &c.ctm, &spec, c.alpha) {
+            Some(p) => p,
+            None => return co,
+        };
+        let res = super::c13::check_image(&c, &pixels, None);
+        st.add("image_px_asserted_under_a_transform", res.asserted);
+        let distinct: std::collections::HashSet<u32> = pixels.iter().cloned().collect();
+        co.nontrivial = distinct.len() >= 2;
+        if let Some(v) = res.violation {
+            co.viol("C11", format!("image source under T={}: {}", transform_str(&c.ctm), v));
+        }
+        if want || !co.violations.is_empty() {
+            co.desc = Some(super::c13::case_desc(&c));
+        }
+        co
+    });
     run_cases(ctx, &mut out, SubSpec { name: "singular_transform_draws_nothing", cases: ctx.n(60_000, 1_000_000), exhaustive: false, max_secs: secs / 2. }, |i, want, st| {
         let mut rng = ctx.rng("singular_transform_draws_nothing", i);
         let w = rng.int(1, 16) as i32;
